@@ -107,7 +107,7 @@ def run(tier, seed):
     if not tie_ok:
         tie_broken.append('translator failed closed: ' + tout[-400:])
     kf_idx = []
-    if proof['ok']:
+    if proof['ok'] or proof['extra_ok']:
         kf_idx = common.run_cases(PID, 'corr', PRE, cases, 'corr_ok', shard=60)
         rf = common.run_cases(PID, 'read', PRE, cases, 'reading_exact', shard=20)
         sf = common.run_cases(PID, 'rule', PRE, cases, 'rule_exact', shard=20)
@@ -127,7 +127,7 @@ def run(tier, seed):
         if only_rule:
             tie_broken.append('the semantics given to the emitted rule (Cnl/Aggregate.v rule_violated) disagrees with clingo on %d specifications, first: %r' % (
                 len(only_rule), {k: meta[only_rule[0]][k] for k in ('text', 'rule')}))
-    else:
+    if not proof['ok']:
         tie_broken.append('theorem file does not build: %s | %s' % (proof['failed_at'], proof['log'][-300:]))
     if proof['bad']:
         tie_broken.append('forbidden tokens: %r' % proof['bad'])
